@@ -100,7 +100,7 @@ func genA(t *rapid.T) CaseA {
 	for i := 0; i < c.Agents; i++ {
 		c.IDs = append(c.IDs, genIDA(t, used))
 		p := -1
-		if i > 0 && agentfx.Weighted(t, "pivot", 1, 1) == 1 {
+		if i > 0 && agentfx.Weighted(t, "pivot", 1, 2) == 1 {
 			// prefer the previous agent: chains grow deep
 			p = i - 1
 			if agentfx.Weighted(t, "parent", 2, 1) == 1 {
@@ -245,7 +245,7 @@ func b2i(b bool) int {
 }
 
 type obsA struct {
-	pivotDepth [4]bool
+	pivotDepth                  [4]bool
 	maxQueued                   int
 	cut, escape, edge, notAsked bool
 	batches, multi, kinds       int
